@@ -667,7 +667,20 @@ def expand(group_path):
                 if len(sp) != 1:
                     raise ExtractError('%s: slice_from `%s` found %d times' % (unit.id, a['slice_from'], len(sp)))
                 st = sp[0][0]
-                if 'slice_until' in a:
+                if a.get('slice_to_block_end') == '1':
+                    # to the end of the innermost block that encloses the start anchor
+                    mb = rustlex.mask(body)
+                    depth, k = 0, st
+                    while k < len(mb):
+                        if mb[k] == '{':
+                            depth += 1
+                        elif mb[k] == '}':
+                            if depth == 0:
+                                break
+                            depth -= 1
+                        k += 1
+                    en = k
+                elif 'slice_until' in a:
                     sp2 = [x for x in rustlex.find_tokens(body, a['slice_until']) if x[0] > st]
                     if len(sp2) < 1:
                         raise ExtractError('%s: slice_until `%s` not found' % (unit.id, a['slice_until']))
